@@ -530,7 +530,7 @@ func (r *yieldRewriter) rewriteForStmt(
 
 	if trivalPost {
 		callFor := r.CallFor(
-			r.ForCondFun(stmt.Cond),
+			r.ForCondFun(r.boolCond(stmt.Cond)),
 			r.ForPostFun(stmt.Post),
 			r.CallDelay(body.block),
 		)
@@ -576,13 +576,29 @@ func (r *yieldRewriter) rewriteForStmt(
 	}
 
 	callFor := r.CallFor(
-		r.ForCondFun(stmt.Cond),
+		r.ForCondFun(r.boolCond(stmt.Cond)),
 		nil,
 		r.CallDelay(body.block),
 	)
 	children = r.combineIfNecessary(children)
 	children.pushReturn(callFor, kindFor)
 	return children
+}
+
+// the cond of for stmt may be of a defined bool type, e.g., type flag bool; for ok { ... }
+// but the cond callback of seq.For / seq.While returns bool
+func (r *yieldRewriter) boolCond(cond ast.Expr) ast.Expr {
+	if isNil(cond) {
+		return cond
+	}
+	ty := r.pkg.TypeOf(cond)
+	if isNil(ty) {
+		return cond // generated
+	}
+	if _, basic := ty.(*types.Basic); basic {
+		return cond // bool or untyped bool
+	}
+	return X.Call(X.Ident("bool"), cond)
 }
 
 func (r *yieldRewriter) combineIfNecessary(children *block) *block {
